@@ -73,7 +73,7 @@ pub fn tins_strategy() -> impl Strategy<Value = TIns> {
         1 => (dim(), any::<u32>()).prop_map(|(dim, seed)| TIns::Assert { dim, seed }),
         2 => (any::<u16>(), dim(), any::<u32>()).prop_map(|(var, dim, seed)| TIns::Redefine { var, dim, seed }),
         1 => (dim(), any::<u32>()).prop_map(|(dim, seed)| TIns::GenericStruct { dim, seed }),
-        2 => (dim(), 0u8..3, any::<u32>()).prop_map(|(dim, which, seed)| TIns::ShadowUnit { dim, which, seed }),
+        3 => (dim(), 0u8..9, any::<u32>()).prop_map(|(dim, which, seed)| TIns::ShadowUnit { dim, which, seed }),
         1 => any::<u32>().prop_map(|seed| TIns::SecondBaseUnit { seed }),
     ]
 }
@@ -741,9 +741,17 @@ impl<'a> Gen<'a> {
                 self.vars.push((q.clone(), out.clone()));
                 self.features.generic_instantiations += 0;
                 self.features.composite_exponent = true;
+                // three shapes: a parameter named like the unit next to the prefixed unit; a where-local
+                // named like the unit, defined *after* a local that uses the unit; a where-local defined
+                // through the unit of its own name
+                let def = match (*which as usize / 3) % 3 {
+                    0 => format!("fn {name}({param}: {pa}) = {param} * ({k} {prefixed})"),
+                    1 => format!("fn {name}(su_x: {pa}) = su_y * {param} where su_y = su_x * (3 {param}) and {param} = {k}"),
+                    _ => format!("fn {name}(su_x: {pa}) = su_x * {param} where {param} = {k} {param}"),
+                };
                 vec![
                     // the return type is left to inference: the body's type must come out right
-                    Stmt { text: format!("fn {name}({param}: {pa}) = {param} * ({k} {prefixed})"), defines: vec![(name.clone(), None)], dim: None, prints: 0 },
+                    Stmt { text: def, defines: vec![(name.clone(), None)], dim: None, prints: 0 },
                     Stmt { text: format!("let {q} = {name}({arg})"), defines: vec![(q, Some(out.clone()))], dim: Some(out), prints: 0 },
                 ]
             }
